@@ -71,6 +71,12 @@ class FreshWorld(World):
             from .fresh_beam import BeamFresh
 
             return {"beam": BeamFresh.gen_beam_config(rng), "nops": int(rng.integers(8, 26)), "faults": False}
+        if rng.random() < 0.08:
+            # sequences that go through the disk (Save / Load_Simu / Set_Iter onto a mesh read from a file), then move the
+            # mesh in use: see engines/fresh_disk.py
+            from .fresh_disk import DiskFresh
+
+            return {"disk": DiskFresh.gen_disk_config(rng, tier), "nops": int(rng.integers(10, 31)), "faults": False}
         three_d = rng.random() < (0.15 if tier == "quick" else 0.25)
         dim = 3 if three_d else 2
         maxNn = 40 if tier == "quick" else 80
@@ -122,6 +128,20 @@ class FreshWorld(World):
 
         self.alloc = seams.AllocSeam(ctx, _simu_mod)
         self.beam = None
+        if "disk" in cfg:
+            from .fresh_disk import DiskFresh
+
+            try:
+                self.beam = DiskFresh(cfg, ctx)
+            except BaseException:
+                self.close()
+                raise
+            self.gen_op = self.beam.gen_op
+            self.apply = self.beam.apply
+            self.observe = self.beam.observe
+            self.abstract_state = self.beam.abstract_state
+            self.finish = lambda: self.beam._compare("end-of-run")
+            return
         if "beam" in cfg:
             from .fresh_beam import BeamFresh
 
@@ -155,6 +175,8 @@ class FreshWorld(World):
                 self.sims.append(rec)
 
     def close(self):
+        if self.beam is not None and hasattr(self.beam, "close"):
+            self.beam.close()
         self.alloc.close()
         self.solver.close()
         self.clock.close()
